@@ -241,7 +241,7 @@ private theorem good_subscribe (st : St) (l : Listener) (h : TypedStore st.opts)
   · split <;> exact ⟨h, hn, by simp⟩
   · exact ⟨h, hn, by simp⟩
 
-private theorem good_setSpecs (st : St) (specs : List (Name × Option Bytes)) (defer : Bool)
+private theorem good_setSpecs (st : St) (specs : List (Name × Option PyStr)) (defer : Bool)
     (h : TypedStore st.opts) (hn : KeysNodup st.opts) : Good (setSpecs st specs defer) := by
   unfold setSpecs
   simp only
@@ -348,7 +348,7 @@ private theorem update_rejected (st : St) (kw : List (Name × Val))
   simp only [hok] at h
   split at h <;> simp_all
 
-private theorem setSpecs_rejected (st : St) (specs : List (Name × Option Bytes)) (defer : Bool)
+private theorem setSpecs_rejected (st : St) (specs : List (Name × Option PyStr)) (defer : Bool)
     (h : (setSpecs st specs defer).out = .typeError ∨ (setSpecs st specs defer).out = .optionsError) :
     (setSpecs st specs defer).st.opts = st.opts := by
   unfold setSpecs at h ⊢
@@ -1062,5 +1062,303 @@ private theorem good_runFromN (ops : List Op) : ∀ st : St, TypedStore st.opts 
 theorem typed_always_nested (ops : List Op) :
     TypedStore (runN ops).1.opts ∧ ∀ ob ∈ (runN ops).2, TypedStore ob.seen :=
   good_runFromN ops St.empty (by intro p hp; simp [St.empty] at hp) (by simp [St.empty, KeysNodup])
+
+private theorem nodup_runFromN (ops : List Op) : ∀ st : St, TypedStore st.opts → KeysNodup st.opts →
+    KeysNodup (runFromN st ops).1.opts := by
+  induction ops with
+  | nil => intro st _ hn; exact hn
+  | cons op r ih =>
+    intro st h hn
+    obtain ⟨g1, g2, _⟩ := good_stepN st op h hn
+    exact ih (stepN st op).st g1 g2
+
+private theorem inv_runN (ops : List Op) : TypedStore (runN ops).1.opts ∧ KeysNodup (runN ops).1.opts :=
+  ⟨(typed_always_nested ops).1,
+   nodup_runFromN ops St.empty (by intro p hp; simp [St.empty] at hp) (by simp [St.empty, KeysNodup])⟩
+
+/-! ### `set` specs: the typed parsing of value strings -/
+
+/-- whatever `_parse_setval` returns is of the option's declared type — for EVERY value string -/
+theorem parse_setval_typed (o : Opt) (vs : List PyStr) (v : Val) (h : parseSetval o vs = some v) :
+    typeOk o.ty v = true := by
+  obtain ⟨ty, d, c⟩ := o
+  unfold parseSetval at h
+  cases ty <;> simp only [reduceCtorEq, if_false, if_true] at h
+  all_goals try (split at h; · cases h)
+  · -- bool
+    cases hv : vs.head? with
+    | none => simp only [hv] at h; cases h; rfl
+    | some s0 =>
+      simp only [hv] at h
+      split at h
+      · cases h; rfl
+      · split at h
+        · cases h; rfl
+        · split at h
+          · cases h; rfl
+          · cases h
+  · -- str
+    cases hv : vs.head? with
+    | none => simp [hv] at h
+    | some s0 => simp only [hv, Option.map_some, Option.some.injEq] at h; subst h; rfl
+  · -- int
+    cases hv : vs.head? with
+    | none => simp [hv] at h
+    | some s0 =>
+      simp only [hv] at h
+      split at h
+      · cases h
+      · cases hp : pyInt s0 with
+        | none => simp [hp] at h
+        | some n => simp only [hp, Option.map_some, Option.some.injEq] at h; subst h; rfl
+  · -- optStr
+    cases hv : vs.head? <;> simp only [hv, Option.some.injEq] at h <;> subst h <;> rfl
+  · -- optInt
+    cases hv : vs.head? with
+    | none => simp only [hv, Option.some.injEq] at h; subst h; rfl
+    | some s0 =>
+      simp only [hv] at h
+      split at h
+      · cases h; rfl
+      · cases hp : pyInt s0 with
+        | none => simp [hp] at h
+        | some n => simp only [hp, Option.map_some, Option.some.injEq] at h; subst h; rfl
+  · -- seqStr
+    cases h
+    simp [typeOk, List.all_map, Atom.isStr]
+
+private theorem lookup_mem (s : Store) (n : Name) (o : Opt) (h : lookup s n = some o) : (n, o) ∈ s := by
+  unfold lookup at h
+  cases hf : s.find? (fun p => p.1 == n) with
+  | none => simp [hf] at h
+  | some p =>
+    simp only [hf, Option.map_some, Option.some.injEq] at h
+    have hm := List.mem_of_find?_eq_some hf
+    have hk := List.find?_some hf
+    have : p.1 = n := by simpa using hk
+    rw [← this, ← h]; exact hm
+
+private theorem parseAll_typed (s : Store) (g : List (Name × List PyStr)) :
+    ∀ processed, parseAll s g = some processed →
+      ∀ kv ∈ processed, ∃ o, lookup s kv.1 = some o ∧ typeOk o.ty kv.2 = true := by
+  induction g with
+  | nil => intro p h kv hkv; simp only [parseAll, Option.some.injEq] at h; subst h; simp at hkv
+  | cons a r ih =>
+    intro p h kv hkv
+    obtain ⟨n, vs⟩ := a
+    simp only [parseAll] at h
+    cases hl : lookup s n with
+    | none => simp only [hl] at h; exact ih p h kv hkv
+    | some o =>
+      simp only [hl] at h
+      cases hv : parseSetval o vs with
+      | none => simp [hv] at h
+      | some v =>
+        cases hr : parseAll s r with
+        | none => simp [hv, hr] at h
+        | some rest =>
+          simp only [hv, hr, Option.some.injEq] at h
+          subst h
+          rcases List.mem_cons.mp hkv with e | e
+          · subst e; exact ⟨o, hl, parse_setval_typed o vs v hv⟩
+          · exact ih rest hr kv e
+
+private theorem allTyped_of_lookup (s : Store) (hn : KeysNodup s) (kvs : List (Name × Val))
+    (h : ∀ kv ∈ kvs, ∃ o, lookup s kv.1 = some o ∧ typeOk o.ty kv.2 = true) : allTyped s kvs = true := by
+  simp only [allTyped, List.all_eq_true]
+  intro kv hkv p hp
+  obtain ⟨o, hl, ht⟩ := h kv hkv
+  by_cases hk : p.1 = kv.1
+  · have := nodup_keys_eq s hn p (kv.1, o) hp (lookup_mem s kv.1 o hl) hk
+    subst this; simp [ht]
+  · simp [hk]
+
+private theorem coreUpdate_typeError (nested : Store → List (Name × Val) → NRes) (ls : List Listener) (s : Store)
+    (kw : List (Name × Val)) (h : (coreUpdate nested ls s kw).out = .typeError) :
+    allTyped s (kw.filter fun kv => hasKey s kv.1) = false := by
+  unfold coreUpdate at h
+  simp only at h
+  split at h
+  · simp at h
+  · split at h
+    · rename_i h2; simpa using h2
+    · split at h <;> simp at h
+
+private theorem updateN_not_typeError (st : St) (kw : List (Name × Val)) (hn : KeysNodup st.opts)
+    (h : ∀ kv ∈ kw, ∃ o, lookup st.opts kv.1 = some o ∧ typeOk o.ty kv.2 = true) : (updateN st kw).out ≠ .typeError := by
+  intro he
+  have hk : (updateKnownN st kw).out = .typeError := by
+    unfold updateN at he
+    simp only at he
+    split at he
+    · cases he
+    · exact he
+  have := coreUpdate_typeError _ _ _ _ hk
+  rw [allTyped_of_lookup st.opts hn _ (fun kv hkv => h kv (List.mem_filter.mp hkv).1)] at this
+  cases this
+
+/-- **set_never_type_error.** After ANY history (nested listener updates included), `set` with ANY specs — any
+    value strings, known and unknown names, deferring or not — never fails with a TypeError: every value it assigns was
+    produced by the typed parsing and is of the declared type (it can only be refused with OptionsError). -/
+theorem set_never_type_error (ops : List Op) (specs : List (Name × Option PyStr)) (defer : Bool) :
+    (stepN (runN ops).1 (.set specs defer)).out ≠ .typeError := by
+  obtain ⟨_, hn⟩ := inv_runN ops
+  simp only [stepN, setSpecsN]
+  cases hp : parseAll (runN ops).1.opts (groupSpecs specs) with
+  | none => simp
+  | some processed =>
+    have ht := parseAll_typed _ _ processed hp
+    simp only
+    split
+    · exact updateN_not_typeError _ processed hn ht
+    · split
+      · simp
+      · exact updateN_not_typeError _ processed hn ht
+
+/-- `toggle` flips a bool option -/
+theorem set_bool_toggle (o : Opt) (x : Bool) (hty : o.ty = .bool) (hc : o.cur = .a (.b x)) :
+    parseSetval o [strToggle] = some (.a (.b (!x))) := by
+  obtain ⟨ty, d, c⟩ := o
+  simp only at hty hc
+  subst hty; subst hc
+  simp [parseSetval, truthy]
+
+/-- a sequence option collects all the values given for it, in order (none: it is cleared) -/
+theorem set_sequence_collects (o : Opt) (hty : o.ty = .seqStr) (vs : List PyStr) :
+    parseSetval o vs = some (.seq (vs.map fun v => Atom.s (utf8 v))) := by
+  simp [parseSetval, hty]
+
+/-- a bare name: clears a sequence, sets a bool, resets an optional option to None, is refused for str / int -/
+theorem set_bare_name (o : Opt) :
+    parseSetval o [] = (match o.ty with
+      | .seqStr => some (.seq [])
+      | .bool => some (.a (.b true))
+      | .optStr => some (.a .none)
+      | .optInt => some (.a .none)
+      | .str => none
+      | .int => none) := by
+  obtain ⟨ty, d, c⟩ := o
+  cases ty <;> simp [parseSetval]
+
+/-- several values for a scalar option are refused -/
+theorem set_scalar_multiple_refused (o : Opt) (hty : o.ty ≠ .seqStr) (a b : PyStr) (r : List PyStr) :
+    parseSetval o (a :: b :: r) = none := by
+  simp [parseSetval, hty]
+
+/-- Python's `int()` as transcribed: surrounding whitespace of any script, sign, digits of any script, single `_` -/
+example : pyInt [32, 43, 49, 95, 48, 0x3000] = some 10 := by decide
+example : pyInt [0x663, 0x664] = some 34 := by decide
+example : pyInt [45, 48] = some 0 := by decide
+example : pyInt [0x1c, 53] = none ∧ pyInt [49, 95, 95, 48] = none ∧ pyInt [95, 49] = none ∧ pyInt [43, 32, 53] = none ∧
+    pyInt [] = none ∧ pyInt [49, 32, 50] = none ∧ pyInt [53, 0] = none := by decide
+example : groupSpecs [(3, some [97]), (4, none), (3, some [98])] = [(3, [[97], [98]]), (4, [])] := by decide
+
+/-! ### rejected updates with nested listener updates: what listeners end up seeing -/
+
+/-- full statement (FALSE, F-C44c / F-C44d): after a rejected update — whatever listeners did from inside their
+    handlers — every listener that was called ends up having seen the final option state -/
+def NestedListenersSeeFinalState : Prop :=
+  ∀ (st : St) (kw : List (Name × Val)), (updateKnownN st kw).out ≠ .ok →
+    ∀ ob ∈ (updateKnownN st kw).obs, lastSeen (updateKnownN st kw).obs ob.who = some (updateKnownN st kw).st.opts
+
+private theorem notifyW_quiet_delivered (nested : Store → List (Name × Val) → NRes) (u : List Name) (s : Store)
+    (ls : List Listener) (hq : quiet u s ls = true) (hd : (notifyW nested u s ls).2.2 = false) :
+    notifyW nested u s ls = (s, (ls.filter (concerned · u)).map (fun l => (⟨l.id, s, u⟩ : Obs)), false) := by
+  induction ls with
+  | nil => rfl
+  | cons l r ih =>
+    simp only [quiet, List.all_cons, Bool.and_eq_true] at hq
+    have hqr : quiet u s r = true := by simpa [quiet] using hq.2
+    simp only [notifyW] at hd ⊢
+    by_cases hc : concerned l u = true
+    · simp only [hc, if_true] at hd ⊢
+      by_cases hr : l.rejects s u = true
+      · simp [hr] at hd
+      · have hr' : l.rejects s u = false := by simpa using hr
+        have ha : l.act s u = none := by
+          have h0 := hq.1
+          rw [hc, hr'] at h0
+          cases hact : l.act s u with
+          | none => rfl
+          | some kw => rw [hact] at h0; simp at h0
+        simp only [hr, Bool.false_eq_true, if_false, ha] at hd ⊢
+        rw [ih hqr hd]
+        simp [hc]
+    · simp only [hc, Bool.false_eq_true, if_false] at hd ⊢
+      rw [ih hqr hd]
+      simp [hc]
+
+/-- **nested_rejected_update_listeners_see_restored_state (partial).** For ALL states — hence after every history —
+    with listeners that may issue nested updates: if `update_known` is rejected, nobody reacts to the rollback
+    notification by another update (`quiet`) and that notification is delivered completely, then every option is
+    at its previous value AND every listener that is concerned by the names of the outer update — whatever it was
+    shown in between, at any nesting depth — has the restored state as its last view. A TypeError notifies nobody. -/
+theorem nested_rejected_update_listeners_see_restored_state_partial (st : St) (kw : List (Name × Val))
+    (h : (updateKnownN st kw).out ≠ .ok)
+    (hq : quiet ((kw.filter fun kv => hasKey st.opts kv.1).map (·.1)) st.opts st.listeners = true)
+    (hd : (notifyW (nestedAt maxDepth st.listeners) ((kw.filter fun kv => hasKey st.opts kv.1).map (·.1)) st.opts
+      st.listeners).2.2 = false) :
+    (updateKnownN st kw).st.opts = st.opts ∧
+    ((updateKnownN st kw).out = .typeError → (updateKnownN st kw).obs = []) ∧
+    ∀ ob ∈ (updateKnownN st kw).obs,
+      (∃ l ∈ st.listeners, l.id = ob.who ∧ concerned l ((kw.filter fun kv => hasKey st.opts kv.1).map (·.1)) = true) →
+      lastSeen (updateKnownN st kw).obs ob.who = some st.opts := by
+  refine ⟨nested_rejected_update_restores_everything_quiet st kw h hq, ?_, ?_⟩
+  · intro hte
+    simp only [updateKnownN, withOpts, coreUpdate] at hte ⊢
+    split
+    · rfl
+    · split
+      · rfl
+      · rename_i h1 h2
+        simp only [h1, h2, Bool.false_eq_true, if_false] at hte
+        split at hte <;> cases hte
+  · have hdel := notifyW_quiet_delivered _ _ _ _ hq hd
+    simp only [updateKnownN, withOpts, coreUpdate] at h ⊢
+    split
+    · intro ob hob; simp at hob
+    · split
+      · intro ob hob; simp at hob
+      · split
+        · rename_i h1 h2 h3; simp [h1, h2, h3] at h
+        · intro ob _ hl
+          obtain ⟨l, hlm, hid, hc⟩ := hl
+          simp only [hdel]
+          apply lastSeen_append
+          · intro ob' hob'
+            obtain ⟨l', _, rfl⟩ := List.mem_map.mp hob'
+            rfl
+          · exact ⟨⟨l.id, st.opts, _⟩, List.mem_map.mpr ⟨l, List.mem_filter.mpr ⟨hlm, hc⟩, rfl⟩, hid⟩
+
+/-- F-C44d witness: listener 1 (on a) sets b when a = 5, listener 2 watches b only, listener 3 (on a) rejects a = 5 -/
+def nestedWatchState : St :=
+  ⟨[(0, ⟨.int, .a (.i 0), .a (.i 0)⟩), (1, ⟨.int, .a (.i 0), .a (.i 0)⟩)], [],
+   [⟨1, some [0], fun _ _ => false, fun s _ => if (lookup s 0).any (fun o => pyEq o.cur (.a (.i 5))) then some [(1, .a (.i 5))] else none⟩,
+    ⟨2, some [1], fun _ _ => false, fun _ _ => none⟩,
+    ⟨3, some [0], fun s _ => (lookup s 0).any (fun o => pyEq o.cur (.a (.i 5))), fun _ _ => none⟩], []⟩
+
+theorem nested_rejected_update_listeners_see_restored_state_counterexample : ¬ NestedListenersSeeFinalState := by
+  intro h
+  have h1 := h nestedWatchState [(0, .a (.i 5))] (by decide)
+    ⟨2, [(0, ⟨.int, .a (.i 0), .a (.i 5)⟩), (1, ⟨.int, .a (.i 0), .a (.i 5)⟩)], [1]⟩ (by decide)
+  revert h1
+  decide
+
+/-- the guards of the partial theorem hold in the witness state (the rollback notification is quiet and delivered):
+    the counterexample is exactly the listener that is not concerned by the outer names -/
+example :
+    quiet [0] nestedWatchState.opts nestedWatchState.listeners = true ∧
+    (notifyW (nestedAt maxDepth nestedWatchState.listeners) [0] nestedWatchState.opts nestedWatchState.listeners).2.2 = false ∧
+    (updateKnownN nestedWatchState [(0, .a (.i 5))]).st.opts = nestedWatchState.opts ∧
+    lastSeen (updateKnownN nestedWatchState [(0, .a (.i 5))]).obs 1 = some nestedWatchState.opts := by decide
+
+/-- **nested_rejected_update_over_histories.** The same for the state reached by ANY history of operations. -/
+theorem nested_rejected_update_over_histories (ops : List Op) (kw : List (Name × Val))
+    (h : (stepN (runN ops).1 (.updateKnown kw)).out ≠ .ok)
+    (hq : quiet ((kw.filter fun kv => hasKey (runN ops).1.opts kv.1).map (·.1)) (runN ops).1.opts (runN ops).1.listeners = true) :
+    (stepN (runN ops).1 (.updateKnown kw)).st.opts = (runN ops).1.opts ∧
+    TypedStore (stepN (runN ops).1 (.updateKnown kw)).st.opts :=
+  ⟨nested_rejected_update_restores_everything_quiet _ kw h hq,
+   (good_stepN _ _ (inv_runN ops).1 (inv_runN ops).2).1⟩
 
 end MitmVerif.Props.C44
